@@ -42,11 +42,12 @@ TRUSTED = ["translator harness/translate/g4_c07_constants.py (Python ast -> cons
            "numpy/torch eigvalsh only for the float screening; the verdict on sampled matrices is the exact certificate",
            "modelled not verified: torch / linear_operator primitives (Cholesky, solves, DiagLinearOperator.diagonal)"]
 ASSUMPTIONS = ["float64 only (torch default dtype set to float64 by the harness, so GreaterThan(1e-4).lower_bound is the float64 1e-4)",
-               "positive definiteness of the Matern / RQ / piecewise-polynomial / Hamming-IMQ covariance FUNCTIONS, of the "
-               "cylindrical radial factor and of the derivative kernels (RBFKernelGrad, RBFKernelGradGrad, Matern52KernelGrad, "
-               "PolynomialKernelGrad) is not proved (gram_psd_partial): observed numerically and certified exactly per sampled "
-               "float64 matrix only; RBF, cosine(d=1), periodic, spectral mixture, linear, polynomial, constant, index, "
-               "multitask/LCM, scale, sums and products ARE theorems for all sizes",
+               "positive definiteness of the Matern (nu = 1/2 in d > 1, nu = 3/2, 5/2), piecewise-polynomial and Hamming-IMQ "
+               "covariance FUNCTIONS, of the cylindrical radial factor with such a base kernel, and of the derivative kernels "
+               "(RBFKernelGrad, RBFKernelGradGrad, Matern52KernelGrad, PolynomialKernelGrad) is NOT proved (gram_psd_partial): "
+               "observed numerically and certified exactly per sampled float64 matrix only (counter gram_cells_family_observed_only); "
+               "RBF, RQ, Matern-1/2 (d = 1), cosine (d = 1), periodic, spectral mixture, linear, polynomial, constant, index, "
+               "multitask/LCM structure, cylindrical (PSD radial factor), scale, sums and products ARE theorems for all sizes",
                "kernels not examined: ArcKernel, GaussianSymmetrizedKLKernel/DistributionalInputKernel (not PD in general), "
                "MultiDeviceKernel, keops kernels, GridKernel / GridInterpolationKernel, InducingPointKernel (Gram part)",
                "FixedGaussianNoise: a call-time `noise=` tensor is used as given (no constraint object exists for it)",
@@ -259,6 +260,31 @@ DOMAIN = {
     "rbf_gradgrad": "n*(2d+1) <= 12", "multitask": "n*t <= 12 (t = 2)", "lcm": "n*t <= 12 (t = 2)",
     "newton_girard": "d >= 2", "additive_structure": "d >= 2", "product_structure": "d >= 2",
 }
+# Gram PSD is a THEOREM (Props/C07.lean, all n / d / hyperparameters) for these grid families ...
+PROVED_FAMILIES = {
+    "rbf": "gram_rbf_psd", "rq": "gram_rq_psd", "periodic": "gram_periodic_psd", "cosine": "gram_cosine_psd (d=1)",
+    "spectral_mixture": "gram_spectral_mixture_psd", "linear": "gram_linear_psd", "polynomial": "gram_polynomial_psd",
+    "constant": "gram_constant_psd", "rff": "gram_linear_psd (feature map Z Z^T)", "spectral_delta": "gram_linear_psd (feature map)",
+    "scale_rbf": "gram_scale_psd + gram_rbf_psd", "index": "gram_index_psd", "multitask": "gram_kronecker_psd + gram_rbf_psd + gram_index_psd",
+    "newton_girard": "gram_sum_psd / gram_finite_product_psd over 1-d gram_rbf_psd", "additive_structure": "gram_sum_psd + gram_rbf_psd",
+    "product_structure": "gram_finite_product_psd + gram_rbf_psd", "cylindrical[rbf]": "gram_cylindrical_psd + gram_rbf_psd"}
+# ... and only OBSERVED (float screening + exact per-matrix certificate) for these:
+OBSERVED_ONLY = {
+    "matern": "Matern nu in {1/2, 3/2, 5/2} in d >= 1 (nu = 1/2, d = 1 is gram_matern12_1d_psd)", "piecewise": "PiecewisePolynomialKernel",
+    "hamming": "HammingIMQKernel", "rbf_grad": "RBFKernelGrad", "rbf_gradgrad": "RBFKernelGradGrad", "matern52_grad": "Matern52KernelGrad",
+    "polynomial_grad": "PolynomialKernelGrad", "sum": "contains Matern-3/2", "product": "contains Matern-1/2 (d > 1)",
+    "lcm": "contains Matern-3/2", "cylindrical[matern2.5]": "radial factor Matern-5/2"}
+
+
+def proof_class(fam, hp):
+    key = f"{fam}[{hp['base'].replace('matern2.5', 'matern2.5')}]" if fam == "cylindrical" else fam
+    if key in PROVED_FAMILIES:
+        return "theorem"
+    if fam == "matern" and hp.get("nu") == 0.5:
+        return "observed (theorem for d = 1)"
+    return "observed"
+
+
 STATIONARY = {"rbf", "matern", "rq", "periodic", "cosine", "piecewise", "spectral_mixture", "scale_rbf", "hamming"}
 
 
@@ -483,6 +509,8 @@ def gram_cases(ctx, drv, tier):
                              sample={"kind": "gram", "kernel": cls, "hp": hp, "geometry": gname, "n": n, "d": d,
                                      "rel_min_eig": info.get("rel_min_eig")})
                     fam_count[fam] = fam_count.get(fam, 0) + 1
+                    pc = "theorem" if (proof_class(fam, hp) == "theorem" or (fam == "matern" and hp.get("nu") == 0.5 and d == 1)) else "observed_only"
+                    ctx.count("gram_cells_family_" + pc)
                     ar = info.get("asym_rel", 0.0)
                     ctx.count("gram_symmetric_bitwise" if ar == 0 else ("gram_symmetric_1e-15" if ar <= SYM_EXACT else "gram_symmetric_rounding_level"))
                     _state["max_asym"] = max(_state.get("max_asym", (0.0, "")), (ar, desc))
@@ -548,6 +576,7 @@ def gram_cases(ctx, drv, tier):
                          "exact_negative": n_neg, "exactly_psd_without_shift": n_exact_psd0,
                          "worst_rel_min_eig_per_family": {k: [f"{v[0]:.2e}", v[1], v[2]] for k, v in worst.items()},
                          "max_relative_asymmetry": list(_state.get("max_asym", (0.0, ""))),
+                         "psd_is_a_theorem_for": PROVED_FAMILIES, "psd_observed_only_for": OBSERVED_ONLY,
                          "domain_handling": DOMAIN, "tolerances": {"eig": EIG_TOL, "sym": SYM_TOL, "minor": MINOR_TOL,
                                                                   "diag": DIAG_TOL}}
 
